@@ -46,7 +46,7 @@ type propDef struct {
 	Units          []unit
 }
 
-var allPasses = []string{"simsync", "simatomic", "detrange", "chanyield", "detselect"}
+var allPasses = []string{"simsync", "simatomic", "detrange", "chanyield", "detselect", "dettimer"}
 
 func cesiumUnit(name string, engines ...string) unit {
 	return unit{
@@ -197,6 +197,22 @@ var properties = map[string]*propDef{
 		}, {
 			Name: "aspen-cluster", Module: "aspen", Package: ".", Passes: allPasses, Engines: []string{"cluster"},
 			QuickBudget: 25 * time.Second, QuickWorkers: 8, ThoroughBudget: 15 * time.Minute, ThoroughWorkers: 16,
+		}},
+	},
+	"C11": {
+		Level: "exploration",
+		Rule: "cases: 1-4 initial members whose views (Config.Candidates) are complete or random subsets, 1-4 pledges started at drawn virtual times through drawn peer lists, a gossip task that lets admitted members become known to the others one by one at drawn times (or never), whether the member a pledge joined through learns of it at once, and a network profile (request loss, delay up to and beyond the request timeout, delivery after the caller gave up) that stops at a drawn time; everything runs under the seeded scheduler (random / sticky / PCT) on the virtual clock. non-trivial = >=2 pledges; distinct = case shape + scheduler trace hash",
+		Real:  []string{"aspen/internal/cluster/pledge (Pledge, Arbitrate, responsible.propose/buildQuorum/consultQuorum, juror.verdict), aspen/internal/node (Group), x/go/rand, x/go/time (scaled ticker), freighter/go/mock unary network — real code with sync/atomic/channel/select/map-range points instrumented by the overlay"},
+		Stub:  []string{"membership views: each node's Config.Candidates is served by the harness (in production: the cluster store fed by gossip); a new node's first view is the view of the member it joined through", "network: in-memory transport wrapped by a fault-injecting client", "goroutine scheduler and clock: verifsim/sim + synctest"},
+		Assumptions: []string{
+			"views only grow; a view always contains the node itself",
+			"quorum oracle: the approvals counted for an admission are the error-free replies to the coordinator's proposal of exactly that key, from members of the coordinator's view; the required count is the majority of the smallest view the coordinator ever had",
+			"liveness bound: every pledge is admitted within the fault window plus 8 s of virtual time",
+		},
+		RequiredProbes: []string{"pledges_admitted", "concurrent_admissions", "stale_view_at_end", "proposal_retried_with_higher_key", "yield_lock"},
+		Units: []unit{{
+			Name: "aspen-pledge", Module: "aspen", Package: "./internal/cluster/pledge", Passes: allPasses,
+			QuickBudget: 25 * time.Second, QuickWorkers: 8, ThoroughBudget: 12 * time.Minute, ThoroughWorkers: 16,
 		}},
 	},
 	"C12": {
